@@ -2,23 +2,34 @@ package main
 
 import (
 	"fmt"
+	"math"
 
 	"verifharness/pkg/vh"
 )
 
 // Case is one check: a list, the arguments, and either one page query or a chained walk.
 type Case struct {
-	Field  string `json:"field"` // itemsI (int64 key) | itemsS (string key) | itemsP (int64 key, pointer nodes) | bareI (no filter/sort fields)
-	Items  []Item `json:"items"`
-	Kind   string `json:"kind"` // page | walkf | walkb
-	K      int64  `json:"k,omitempty"`
-	Args   Args   `json:"args"`
-	Flag   bool   `json:"use_batch"` // what ShouldUseBatchFunc answers for the *_fb fields
-	Origin string `json:"origin"`
+	Field string `json:"field"` // itemsI (int64 key) | itemsS (string key) | itemsP (int64 key, pointer nodes) | bareI (no filter/sort fields)
+	Items []Item `json:"items"`
+	Kind  string `json:"kind"` // page | walkf | walkb
+	K     int64  `json:"k,omitempty"`
+	Args  Args   `json:"args"`
+	Flag  bool   `json:"use_batch"` // what ShouldUseBatchFunc answers for the *_fb fields
+	// extI / dualI: what the manual resolver returns besides Items; dualI: whether the switch selects the
+	// thunder-managed fallback resolver
+	Ext      *ExtInfo `json:"ext,omitempty"`
+	Fallback bool     `json:"use_fallback,omitempty"`
+	Origin   string   `json:"origin"`
 }
 
-var words = []string{"can", "Man", "cannot", "so ban", "socan", "x y", "", "CAN", "a\"b", "jan", "Zed", "zed", "tab\there", "aan", "b", "B"}
-var sortStrings = []string{"a", "A", "b", "B", "ab", "Ab", "", "c", "Z", "z", "[", "_", "aa"}
+var words = []string{"can", "Man", "cannot", "so ban", "socan", "x y", "", "CAN", "a\"b", "jan", "Zed", "zed", "tab\there", "aan", "b", "B",
+	"Éclair", "éclair", "straße", "CAFÉ can", "×µ"}
+var sortStrings = []string{"a", "A", "b", "B", "ab", "Ab", "", "c", "Z", "z", "[", "_", "aa", "É", "é", "Àb", "àB", "ß", "×"}
+
+// texts with code points at or above U+0100: Go lower-cases them too, the model does not (excluded from
+// the model comparison by textInModel, still judged by the oracle)
+var outsideWords = []string{"Σίσυφος", "σίσυφοσ", "İstanbul", "Жук", "жук", "ǅ"}
+var floats = []float64{-1.5, math.Copysign(0, -1), 0, 0.5, 2, 2.0000000000000004, 1e300, -1e-300, 1e-300, 3.25, -2}
 var strKeys = []string{"a", "A", "b", "k1", "k2", "k 3", "", "x/y", "é", "zz", "0", "1", "01", "key", "Key", "q\"", "=", "MQ==", "-", "~"}
 
 func p64(i int64) *int64    { return &i }
@@ -75,12 +86,22 @@ func genItems(r *vh.Rng, field string, walk bool) []Item {
 		}
 		it.N[1] = int64(r.Intn(3)) - 1
 		it.S = r.Pick(sortStrings)
+		it.U = uint64(r.Intn(tieRange))
+		if r.Chance(15) {
+			it.U = r.U64() | 1<<63 // above MaxInt64: must compare unsigned
+		}
+		it.F = floats[r.Intn(len(floats))]
+		if r.Chance(10) {
+			it.F = float64(int64(r.Intn(2000))-1000) / 8
+		}
 		items = append(items, it)
 	}
 	return items
 }
 
-var filterTexts = []string{"can", "CAN man", "\"so ban\"", "  ", "an", "x\"y z", "\"\"", "a \"\" b", "zed", "\"x y\" jan", "b", "nomatch", "\t", "ab\"", "\"so ban", "n\"o\"t"}
+var filterTexts = []string{"can", "CAN man", "\"so ban\"", "  ", "an", "x\"y z", "\"\"", "a \"\" b", "zed", "\"x y\" jan", "b", "nomatch", "\t", "ab\"", "\"so ban", "n\"o\"t",
+	"éCL", "É", "SS ß", "café"}
+var prefixTexts = []string{"ca,M", "so", ",,c", "Z,z", "x y", "can,", "É,é", "", "a\"b,tab"}
 
 func genFilterSort(r *vh.Rng, field string, a *Args, allowBad bool) {
 	pf := 50
@@ -102,6 +123,21 @@ func genFilterSort(r *vh.Rng, field string, a *Args, allowBad bool) {
 			a.FilterText = pstr(string(b))
 		default:
 			a.FilterText = pstr(r.Pick(filterTexts))
+		}
+		if field != "bareI" || allowBad {
+			switch k := r.Intn(100); {
+			case k < 9:
+				a.FilterType = pstr("prefix")
+				a.FilterText = pstr(r.Pick(prefixTexts))
+			case k < 15:
+				a.FilterType = pstr("exact")
+				a.FilterText = pstr(r.Pick(words))
+			case k < 17 && allowBad:
+				a.FilterType = pstr("nope")
+			}
+		}
+		if r.Chance(1) {
+			a.FilterText = pstr(r.Pick(outsideWords))
 		}
 		if r.Chance(55) {
 			n := r.Intn(4)
@@ -160,18 +196,47 @@ func genCursor(r *vh.Rng, items []Item) *string {
 func genCase(r *vh.Rng) Case {
 	var c Case
 	switch k := r.Intn(100); {
-	case k < 42:
+	case k < 36:
 		c.Field = "itemsI"
-	case k < 80:
+	case k < 66:
 		c.Field = "itemsS"
-	case k < 92:
+	case k < 76:
 		c.Field = "itemsP"
-	default:
+	case k < 82:
 		c.Field = "bareI"
+	case k < 91:
+		c.Field = "extI"
+	default:
+		c.Field = "dualI"
+	}
+	if c.Field == "extI" || c.Field == "dualI" {
+		x := &ExtInfo{HasNext: r.Bool(), HasPrev: r.Bool(), ApplyTextFilter: r.Chance(60), SetPageInfo: r.Chance(40)}
+		if !r.Chance(6) {
+			x.Total = p64(int64(r.Intn(100)))
+		}
+		if r.Chance(30) {
+			x.Pages = []string{"", cursorOf("7")}
+		}
+		c.Ext = x
+		c.Fallback = c.Field == "dualI" && r.Chance(55)
 	}
 	kindDraw := r.Intn(100)
 	c.Items = genItems(r, c.Field, kindDraw >= 50)
 	c.Flag = r.Bool()
+	if len(c.Items) > 0 && r.Chance(3) {
+		// texts the model does not cover (code points >= U+0100): oracle only
+		for k := 1 + r.Intn(2); k > 0; k-- {
+			it := &c.Items[r.Intn(len(c.Items))]
+			if r.Bool() {
+				it.T[r.Intn(3)] = r.Pick(outsideWords)
+			} else {
+				it.S = r.Pick(outsideWords)
+			}
+		}
+	}
+	if externallyManaged(&c) && kindDraw >= 50 {
+		kindDraw -= 50 // walks follow thunder's page info; a resolver's own page info is checked per page
+	}
 	switch k := kindDraw; {
 	case k < 50:
 		c.Kind = "page"
